@@ -323,6 +323,32 @@ def suite_output(exe, tier, seed):
                     clause, what = "filters", f"displayed {sorted(Counter(disp).items())}, expected from the unfiltered run {sorted(want.items())}"
                 elif Counter((l, i) for (l, i) in res) != Counter((l, i) for (l, i) in disp if i != "?") and not (len(disp) == 0 and not res):
                     clause, what = "sarif", f"SARIF holds {sorted(Counter(res).items())} but {sorted(Counter(disp).items())} were displayed"
+                elif os.path.exists(sar) and res and res[0][0] != "unreadable":
+                    # positions and rule descriptors
+                    import re as _re
+                    shown = Counter()
+                    cur = None
+                    for l in out.split("\n"):
+                        m = _re.match(r"^(warning|error|note|info)\[(\w+)\]:", l)
+                        if m:
+                            cur = m.group(2)
+                        m2 = _re.search(r"┌─ [^\s:]+:(\d+):(\d+)", l)
+                        if m2 and cur:
+                            shown[(cur, int(m2.group(1)), int(m2.group(2)))] += 1
+                            cur = None
+                    inf = Counter()
+                    for r in sj["runs"][0]["results"]:
+                        if r.get("locations"):
+                            reg = r["locations"][0]["physicalLocation"]["region"]
+                            inf[(r.get("ruleId"), reg.get("startLine"), reg.get("startColumn"))] += 1
+                    rules = [x.get("id") for x in sj["runs"][0].get("tool", {}).get("driver", {}).get("rules", [])]
+                    used = {r.get("ruleId") for r in sj["runs"][0]["results"]}
+                    if shown != inf:
+                        clause, what = "sarif-positions", f"SARIF places findings at {sorted((inf - shown).items())[:4]} where the terminal shows {sorted((shown - inf).items())[:4]}"
+                    elif len(rules) != len(set(rules)):
+                        clause, what = "sarif-rules", f"the SARIF rule list repeats an id: {sorted(rules)}"
+                    elif set(rules) != used:
+                        clause, what = "sarif-rules", f"the SARIF rule list {sorted(rules)} does not match the ids of the results {sorted(used)}"
                 if what and len(viol) < 20 and not any(v["obligation"].endswith(clause) for v in viol):
                     viol.append({"unit": "e2e", "fn": "main", "obligation": f"e2e|output|{clause}", "input": {"level": level, "allow": allow, "files": files},
                                  "what": f"--level {level} --allow {allow} --sarif-file: {what}", "replay": "python3 run/e2e.py output quick 0"})
@@ -353,7 +379,7 @@ def suite_output(exe, tier, seed):
     finally:
         shutil.rmtree(d, ignore_errors=True)
     return {"unit": "e2e-output", "evaluations": evals, "distinct_nontrivial": nontrivial, "exhaustive": tier == "thorough",
-            "rule": "the real CLI on a fixture project (a named file with 8 finding kinds across 3 levels, an included-only file with findings of its own, a named file that does not exist) for each (--level, --allow set) with --sarif-file and -v; checked: exit 0 iff nothing displayed, summary = number displayed, displayed = unfiltered findings filtered by level and allow list, SARIF results = displayed (ids and levels); non-trivial = a filter is active",
+            "rule": "the real CLI on a fixture project (a named file with 8 finding kinds across 3 levels, an included-only file with findings of its own, a named file that does not exist) for each (--level, --allow set) with --sarif-file and -v; checked: exit 0 iff nothing displayed, summary = number displayed, displayed = unfiltered findings filtered by level and allow list, SARIF results = displayed (ids, levels, and line/column of the primary location), SARIF rule list = one descriptor per id that occurs; findings produced while a definition's CFG is generated (shadowing warning, parameter collision) are displayed exactly once whichever definition is analysed first; non-trivial = a filter is active",
             "bound": "3 levels x " + ("all singletons and pairs of the occurring ids plus 5 fixed subsets" if tier == "thorough" else "5 allow subsets (empty, one id, two ids, half, all)"),
             "samples": samples, "violations": viol}
 
